@@ -270,6 +270,14 @@ impl ExactSizeIterator for TaikoGradualDifficulty {
     }
 }
 
+#[cfg(rosu_pp_verif)]
+impl TaikoGradualDifficulty {
+    /// Verification hook: the difficulty objects the calculator iterates over.
+    pub(crate) const fn verif_diff_objects(&self) -> &TaikoDifficultyObjects {
+        &self.diff_objects
+    }
+}
+
 #[cfg(test)]
 mod tests {
     use crate::{taiko::Taiko, Beatmap};
